@@ -336,6 +336,7 @@ package mail
 //@ pred filesafeX(f *mail.File) = f != nil && f.Header != nil && !f.Header.hdrtaint && nocrlf(f.ContentType) && nocrlf(f.Enc)
 //@ func mail.File.setHeader (header, value)
 //@   requires[C02:wf] f != nil && f.Header != nil
+//@   modifies[C02:frame] entries(f.Header), f.Header.hdrtaint, f.Header.cidtaint
 //@   ensures[C02:taint] f.Header == old(f.Header) && (canon(header) == canon("Content-ID") ==> f.Header.cidtaint == !nocrlf(value) && f.Header.hdrtaint == old(f.Header.hdrtaint)) && (canon(header) != canon("Content-ID") ==> f.Header.cidtaint == old(f.Header.cidtaint) && (nocrlf(value) ==> f.Header.hdrtaint == old(f.Header.hdrtaint)))
 //@ func mail.File.getHeader (header) (v, ok)
 //@   requires[C02:wf] f != nil
